@@ -119,11 +119,13 @@ def shell_flags(kind, e):
     return [i == 0 for poly in e for i in range(len(poly))]
 
 
-def check_array(col, kind, st, T, elems, boxes, qpts, deep, pre=None):
+def check_array(col, kind, st, T, elems, boxes, qpts, deep, pre=None, arr_override=None, label=None):
     """elems: lattice elements (None / () allowed); pre: elements stored BEFORE them in the same buffers (the array under
     test is then the slice [len(pre):] of a longer array)"""
     case = {"kind": kind, "subtype": st, "T": list(T), "elems": [jelem(e) for e in elems], "pre": [jelem(e) for e in (pre or [])]}
-    arr0 = L.make_array(kind, list(pre or []) + list(elems), st, T)[len(pre or []):]
+    arr0 = L.make_array(kind, list(pre or []) + list(elems), st, T)[len(pre or []):] if arr_override is None else arr_override
+    if label:
+        case["history"] = label
     views = [("full", arr0, 0, len(elems))]
     if len(elems) >= 2:
         views += [("slice[1:]", arr0[1:], 1, len(elems)), ("slice[:-1]", arr0[:-1], 0, len(elems) - 1)]
@@ -250,6 +252,61 @@ def check_array(col, kind, st, T, elems, boxes, qpts, deep, pre=None):
     col.sample({"kind": kind, "subtype": st, "elems": [jelem(e) for e in elems][:2]})
 
 
+def orient_lattice(kind, e):
+    """the lattice element with every ring of non-zero area in its normalised direction (shells ccw, holes cw)"""
+    if e in (None, ()):
+        return e
+    flags = shell_flags(kind, e)
+    rings = rings_list(kind, e)
+    out = []
+    for r, pos in zip(rings, flags):
+        a2 = O.signed_area2_ring(r) if (len(r) >= 3 and r[0] == r[-1]) else 0
+        out.append(tuple(r[::-1]) if (a2 != 0 and (a2 > 0) != pos) else tuple(r))
+    if kind == "polygon":
+        return tuple(out)
+    res, k = [], 0
+    for poly in e:
+        res.append(tuple(out[k:k + len(poly)]))
+        k += len(poly)
+    return tuple(res)
+
+
+def check_histories(col, kind, st, T, elems1, elems2, boxes, qpts):
+    """an array that is the concatenation of an already normalised array (or a slice / copy / take / pickle of one) with rows
+    that were never normalised: oriented() must still normalise every row"""
+    import pickle
+
+    import pandas as pd
+    A_raw = L.make_array(kind, elems1, st, T)
+    try:
+        A = A_raw.oriented()
+    except Exception:
+        return                                  # reported by the plain units
+    o1 = [orient_lattice(kind, e) for e in elems1]
+    if A.data.to_pylist() != L.make_array(kind, o1, st, T).data.to_pylist():
+        return                                  # a plain unit reports what is wrong with oriented() itself
+    B = L.make_array(kind, elems2, st, T)
+    cls = type(A)
+    n1 = len(elems1)
+    variants = [("oriented", A, o1), ("oriented[1:]", A[1:], o1[1:]), ("oriented.copy", A.copy(), o1),
+                ("oriented.take", A.take(list(range(n1))[::-1]), o1[::-1]), ("oriented.pickle", pickle.loads(pickle.dumps(A)), o1)]
+    for name, V, ov in variants:
+        for how in ("concat_same_type", "pd.concat"):
+            try:
+                if how == "concat_same_type":
+                    C = cls._concat_same_type([V, B])
+                    D = cls._concat_same_type([B, V])
+                else:
+                    C = pd.concat([pd.Series(V), pd.Series(B)], ignore_index=True).array
+                    D = pd.concat([pd.Series(B), pd.Series(V)], ignore_index=True).array
+            except Exception as ex:
+                col.violation(f"{kind}.history.raises", {"kind": kind, "subtype": st, "T": list(T), "history": f"{how}({name}, raw)"},
+                              f"{type(ex).__name__}: {ex}")
+                continue
+            check_array(col, kind, st, T, list(ov) + list(elems2), boxes, qpts, deep=False, arr_override=C, label=f"{how}([{name}, raw])")
+            check_array(col, kind, st, T, list(elems2) + list(ov), boxes, qpts, deep=False, arr_override=D, label=f"{how}([raw, {name}])")
+
+
 def wide_polygons(st):
     """thin and fat triangles over the extreme / small values of the subtype's exactly representable
     integer range, as shells (both directions occur: every vertex permutation) and as holes"""
@@ -289,6 +346,11 @@ def plan(ctx):
     for st in ("float64", "int64", "int32"):
         for c in range(0, len(fam_p), 40):
             units.append(("polygon", "far:" + st, fam_p[c:c + 40]))
+    for kind, fam in (("polygon", polygon_family(False)), ("multipolygon", multipolygon_family(False))):
+        for c in range(0, len(fam) - 6, max(6, len(fam) // 8)):
+            units.append((kind, "history", (fam[c:c + 3], fam[c + 3:c + 6])))
+    for c in range(0, len(fam_p), 60):
+        units.append(("polygon", "huge:int64", fam_p[c:c + 60]))
     for st in L.SUBTYPES:
         w = wide_polygons(st)
         for c in range(0, len(w), 1200):
@@ -340,6 +402,16 @@ def run(ctx):
                 # a long way from the origin (coordinate x coordinate products exceed 2^53) and very small rings
                 for T in ((1, 2 ** 30, -(2 ** 30)), (2, -(2 ** 30) + 1, 2 ** 29 + 3)) + (((2.0 ** -16, 1, -1),) if st == "float64" else ()):
                     check_array(col, kind, st, T, [e], boxes, qpts, deep=False)
+            return
+        if mode == "history":
+            for st in ("float64", "int32"):
+                check_histories(col, kind, st, L.transform_for(st, ctx.seed, salt=j), list(items[0]) + [None], list(items[1]), boxes, qpts)
+            return
+        if mode == "huge:int64":
+            # coordinates beyond 2^53 (not representable in float64) on shapes large enough for their direction to be decidable:
+            # every ring must keep exactly its vertices
+            for e in items:
+                check_array(col, kind, "int64", (2 ** 20, 2 ** 53 + 1, -(2 ** 53) - 3), [e], boxes, qpts, deep=False)
             return
         if mode.startswith("wide:"):
             check_array(col, kind, mode[5:], (1, 0, 0), list(items) + [None], boxes, qpts, deep=False)
